@@ -236,7 +236,7 @@ def check(ctx, text, origin):
 
 def run(ctx):
     rng = ctx.rng
-    n = ctx.pick(2500, 60000)
+    n = ctx.per_shard(2500, 60000)
     for i in range(n):
         check(ctx, soup(rng), 'soup')
         if not (i & 0xff) and ctx.out_of_time():
@@ -244,7 +244,7 @@ def run(ctx):
 
     def opts_fn(i, r):
         return jsgen.Opts(clean=False, unicode_idents=True, string_continuations=True)
-    progs = work.Programs(ctx, ctx.pick(250, 5000), opts_fn=opts_fn, valid_only=False)
+    progs = work.Programs(ctx, ctx.per_shard(250, 5000), opts_fn=opts_fn, valid_only=False)
     for text, meta in progs:
         check(ctx, text, meta['origin'])
         if meta['toks'] and meta['layout'] == 'space':
